@@ -228,8 +228,10 @@ def _finish_request(draws, spec, req, idx, profile, rs, tier):
     which = profile.get("configs", "all")
     if which == "all":
         req.configs = list(CONFIGS)
-        if tier == "thorough":
-            req.configs.append("threads")  # L2: real threads, line-granular
+        # L2 (real threads, line-granular pre-emption): always in the
+        # thorough tier, for a quarter of the requests in the quick tier
+        if tier == "thorough" or rs.chance(1, 4, "l2"):
+            req.configs.append("threads")
     elif which == "two":
         a = rs.below(len(CONFIGS), "cfg_a")
         b = rs.below(len(CONFIGS), "cfg_b")
@@ -375,6 +377,8 @@ def run_case(draws, prop, tier="quick"):
         for config in req.configs:
             mode = MODE_OF[config]
             reps = profile["reps"] if mode != "blocking" else 1
+            if config == "threads" and tier != "thorough":
+                reps = 1
             for rep in range(reps):
                 sname = "sched:%d:%s:%d" % (idx, config, rep)
                 sched = draws.stream(sname)
